@@ -7,6 +7,22 @@ TECH_A = "bounded symbolic execution of the real Python code (CrossHair 0.0.110 
 TECH_B = "; plus direct z3 obligations generated from the live source/AST (unbounded in the stated dimension)"
 
 CLAIMED = {
+    "C14": dict(
+        text="Bounded symbolic model checking of purity and non-interference. Frame: every pool filter/function/descendant query applied twice to a symbolic document (child of every JSON kind): a deep snapshot taken before equals the document after, both applications equal the reference result and node values are the document's own objects. Histories: from a pre-state (two environments carrying different implementations of the same function name, pool queries already compiled on one of them) every sequence of 1 and 2 operations and every 'observe, any operation, observe again' sequence of 3 (all sequences of 3, and targeted 4, in the thorough tier) over {compile on A/B, apply a compiled query, env.find on A/B, module-level find, (re-)register a function on A/B, update the document in place} - the choices are symbolic selectors the executor forks on, document leaves are solver variables; after every step each observable result must equal the reference evaluation for (that text, that environment's own registry, the current document content), and after every history a fresh environment, a subclass and the module-level functions are untouched.",
+        note="Trusted: CrossHair/z3, reference evaluator. Outside: longer histories; the regex module's process-wide pattern cache (foreign). The operation dimension is finite and fork-enumerated; only document leaves are solver-decided.",
+        tech=TECH_A, design="§4 C14"),
+    "C15": dict(
+        text="Bounded symbolic model checking of entry-point agreement. Objects: a compiled query built from 18 (30 thorough) templates with symbolic integers/names is applied to a symbolic JSON value (depth<=2, leaves all ints or all strings, chosen symbolically) through find, apply, finditer and find_one: find == apply == list(finditer) == the reference evaluation, find_one is the head of that list or None. Texts: prefix + k symbolic characters + suffix (valid and invalid) is evaluated on two concrete documents containing every kind of value through all 11 public call paths (module-level find/finditer/find_one/compile().x, environment methods, compiled-query methods): identical node lists, find_one its head or None, or the same JSONPathError class from every path.",
+        note="Trusted: CrossHair/z3, reference evaluator, stubs of C04. In symbolic runs the module-level functions are represented by the model environment's methods (the module-level names are aliases of a default environment's bound methods; the replay uses the real module-level functions).",
+        tech=TECH_A, design="§4 C15"),
+    "C16": dict(
+        text="Bounded symbolic model checking of iterator independence on one thread; threads ARGUED, not explored (see level_note). Up to 3 live result iterators - same compiled query or different ones (filter with '$'-rooted sub-query, nested filter, descendant, function call), same or different documents with symbolic leaves, one shared environment - are advanced by a schedule that is a list of symbolic choices (which iterator steps, or one is abandoned), so every interleaving up to the bound is covered; each iterator must yield exactly the reference (solitary) sequence. Frame obligation: after any schedule every slot of every object reachable from the compiled queries and the environment is unchanged (identity).",
+        note="Threads: OS-thread schedules are not expressible in this family. From the frame obligation (evaluation state lives only in generator frames; nothing reachable from shared objects is written) independence under CPython's sequentially consistent interleaving of bytecodes follows; that step is an argument, not an exploration. Bounds: schedules of <=4 steps (k=2) / 3 steps (k=3) quick; 7 / 6 thorough.",
+        tech=TECH_A + "; schedules as symbolic choice lists", design="§4 C16, §5"),
+    "C20": dict(
+        text="IN-PROCESS PART (see level_note): bounded symbolic model checking of handle_path_command() driven with an argparse.Namespace: the query is prefix + k symbolic characters + suffix (valid queries and every JSONPathError class) given inline or through a query-file object; the document comes from a pool of 9 JSON byte strings (ASCII, non-ASCII, lone-surrogate escapes, deeper than the recursion limit, invalid JSON, empty, not UTF-8, UTF-16) in a binary stream; the output is a strictly encoding text stream (UTF-8 or ASCII) over a byte buffer; --pretty is a symbolic boolean. On every path: success => the bytes written parse to find(query, document).values() with the requested indentation, nothing on stderr, no SystemExit; library error or undecodable document => SystemExit non-zero, exactly one line on stderr, nothing written; no other exception escapes without --debug.",
+        note="NOT decided: the process level (python -m, argparse.FileType, real stdin/stdout encodings, 'uncaught exception => traceback and exit status 1') is CPython/OS behaviour outside symbolic reach (DESIGN section 5). Trusted: CrossHair/z3, stubs of C04; in symbolic runs the output/stderr streams are Python-level stand-ins with the same strict-encoding behaviour, replays use io.TextIOWrapper over BytesIO.",
+        tech=TECH_A, design="§4 C20, §5"),
     "C11": dict(
         text="REDUCED SCOPE (see level_note): bounded symbolic model checking of everything the repository's own code contributes to match()/search(): (i) map_re(p) for every pattern of up to 4 (5 thorough) symbolic characters over all scalar values equals the reference rewriting (unescaped '.' outside a class -> any-character-but-CR/LF group; escaped characters, escaped backslashes and class contents verbatim); (ii) Match.__call__/Search.__call__ with the two foreign engines cut by contract stubs, arguments symbolic over every JSON kind and nothing: non-string pattern/subject, invalid I-Regexp or an engine raising regex.error/TypeError all give False, nothing ever raises, match calls fullmatch(map_re(p), s) and search calls search(map_re(p), s) with identical flags; (iii) supplementary finite exhaustive concrete check on the real engine: the '.' replacement matches every single scalar value except LF/CR, classes stay literal for | & ~ - .",
         note="NOT decided: that the foreign engines (regex: C extension; iregexp_check: Rust) implement I-Regexp language semantics for the rewritten pattern - they cannot be executed symbolically or encoded within reach (DESIGN section 5); the claim covers the Python translation layer and the guard/dispatch contract only, which is all the code this repository contributes to the property. Trusted: CrossHair/z3, the stubs' contract (fullmatch = whole string, search = substring, TypeError on non-strings).",
@@ -121,7 +137,7 @@ def main():
     print("claimed:", sorted(CLAIMED), "n/a:", [x["property_id"] for x in na])
 
 
-NA_REASONS = {}
+NA_REASONS = {}  # every property is claimed; C11, C16 and C20 with the reduced scope stated in their level text / note
 
 if __name__ == "__main__":
     main()
